@@ -390,6 +390,14 @@ def package_wide_reasons(ck, expr, at, depth=0):
                 and n.func.attr in CONTAINER_QUERIES and (n.args or n.keywords) and not all(isinstance(a, ast.Constant) for a in n.args):
             allowed_nodes.add(id(n.func.value))
             allowed_nodes.add(id(n.func))
+    # emptiness of the member list: an empty package has no part to read (sound shortcut)
+    for n in ast.walk(expr):
+        if isinstance(n, ast.UnaryOp) and isinstance(n.op, ast.Not) and isinstance(n.operand, ast.Name) and n.operand.id in tabs:
+            allowed_nodes.add(id(n.operand))
+        if isinstance(n, ast.Compare) and isinstance(n.left, ast.Call) and isinstance(n.left.func, ast.Name) and n.left.func.id == "len" and n.left.args \
+                and isinstance(n.left.args[0], ast.Name) and n.left.args[0].id in tabs and len(n.comparators) == 1 \
+                and isinstance(n.comparators[0], ast.Constant) and n.comparators[0].value == 0:
+            allowed_nodes.add(id(n.left.args[0]))
     for n in ast.walk(expr):
         if isinstance(n, ast.Name) and id(n) not in allowed_nodes:
             if n.id in cs:
